@@ -10,6 +10,8 @@ EXPLANATION = [
     'C17.dlc-sink: DLC.on_uih_frame calls its consumer inside try/except Exception, so hostile data that makes the consumer raise cannot desynchronise the RFCOMM credit ledgers.',
     'C17.ack-bounded: an acknowledgement received on an ERTM channel is accepted only if it covers no more frames than are actually outstanding (same rule as C08.window), so a forged ReqSeq cannot move the acknowledged sequence number past what was sent and wedge the transmitter.',
     'C17.depth-balance: the SDP parser\'s nesting counter is restored on every normal exit of the recursive list parser (path counting).',
+    'C17.state-guard: in the L2CAP response handlers of both channel classes (connection, configure, disconnection response) every state-changing effect (_change_state, _disconnect_sync, abort, emit, manager.on_channel_closed) is under a test of self.state: a response that nobody is waiting for leaves an OPEN channel alone.',
+    'C17.lost-write: in the AVCTP, AVDTP and AVRCP reassemblers no path through on_pdu records a state field for the fragment being handled, then calls the self-healing reset() and carries on with the wiped value (the start fragment of a well-formed message after an abandoned one keeps its packet count).',
     'C17.feed-contained: every site that pushes received bytes into the HCI packet parser is inside try/except InvalidPacketError that lets the transport continue (the handler sits inside the receive loop, or the try is itself inside a further loop: a handler outside the loop ends reception), or is a named plain event-loop callback where the escaping exception is only logged.',
     'C17.parser-reset: the push parser consumes what it needs, resets after emission and before raising on an unknown type byte, and contains sink exceptions (same rule as C02.push-parser).',
     'C17.response-routing: the HF reader queues a line as a command response only under `self.pending_command`, which execute_command clears in finally.',
@@ -568,6 +570,81 @@ def feed_contained(ctx, rule='C17.feed-contained'):
 
 
 
+LOST_WRITE_SITES = ('bumble.avctp.MessageAssembler.on_pdu', 'bumble.avdtp.MessageAssembler.on_pdu', 'bumble.avrcp.PduAssembler.on_pdu')
+
+
+def lost_write(ctx, rule='C17.lost-write'):
+    """A reassembler that heals itself with reset() in the middle of handling a fragment does not wipe what it has
+    already recorded about that very fragment."""
+    R, p = ctx.r, ctx.p
+    n = 0
+    for q in LOST_WRITE_SITES:
+        m = p.find(q)
+        ci = p.cls(q.rsplit('.', 1)[0])
+        r = ci.methods.get('reset') if ci else None
+        if m is None or r is None:
+            R.bad(rule, q, 'anchor missing')
+            continue
+        flds = {dotted(t)[5:] for x in walk_local(r) if isinstance(x, (ast.Assign, ast.AugAssign)) for t in (x.targets if isinstance(x, ast.Assign) else [x.target]) if (dotted(t) or '').startswith('self.') and (dotted(t) or '').count('.') == 1}
+
+        class D(paths.Domain):
+            # (fields written since entry / the last reset, fields written then wiped, state written after the last reset)
+            def event(self, node, v):
+                w, lost, after = v
+                if isinstance(node, (ast.Assign, ast.AugAssign)):
+                    for t in (node.targets if isinstance(node, ast.Assign) else [node.target]):
+                        d = dotted(t) or ''
+                        if d.startswith('self.') and d[5:] in flds:
+                            w, lost, after = w | {d[5:]}, lost - {d[5:]}, True
+                if isinstance(node, ast.Call) and dotted(node.func) == 'self.reset':
+                    w, lost, after = frozenset(), lost | w, False
+                return ((w, lost, after),)
+        res = paths.run(m, D(), (frozenset(), frozenset(), False))
+        bad = sorted({f'{k}: {sorted(v[1])} recorded, wiped by reset(), then processing went on' for k, st in res.items() if not k.startswith('raise') for v in st if v[1] and v[2]})
+        n += 1
+        R.check(len(flds) >= 2 and not bad, rule, q, f'no path records one of {sorted(flds)} for the current fragment, resets, and carries on without recording it again',
+                'a field recorded for the fragment being handled is wiped by the self-healing reset() that follows and processing continues with the wiped value: the well-formed message that follows an abandoned one is rejected', p.loc(m), bad[:3])
+    R.check(n == len(LOST_WRITE_SITES), rule, 'reassemblers', f'{n} reassemblers analysed', f'only {n} reassemblers found')
+
+
+RESPONSE_GUARDED = {
+    'bumble.l2cap.ClassicChannel': ('on_connection_response', 'on_configure_response', 'on_disconnection_response'),
+    'bumble.l2cap.LeCreditBasedChannel': ('on_disconnection_response',),
+}
+STATE_EFFECTS = ('self._change_state', 'self._disconnect_sync', 'self.manager.on_channel_closed', 'self._abort_connection_result', 'self.abort', 'self.emit')
+
+
+def state_guard(ctx, rule='C17.state-guard'):
+    """A signalling *response* only has an effect on a channel that is waiting for it: every state-changing effect
+    of a response handler is under a test of self.state."""
+    R, p = ctx.r, ctx.p
+    n = 0
+    for cq, names in RESPONSE_GUARDED.items():
+        ci = p.cls(cq)
+        for name in names:
+            m = ci.methods.get(name) if ci else None
+            if m is None:
+                R.bad(rule, f'{cq}.{name}', 'anchor missing')
+                continue
+            for c in calls_in(m):
+                d = dotted(c.func) or ''
+                if d not in STATE_EFFECTS:
+                    continue
+                n += 1
+                g = [norm(t) for t, pol in paths.flat_guards(c)]
+                early = []
+                # an early `if self.state != X: ... return` before the statement also guards it
+                top = c
+                while getattr(top, '_parent', None) is not m:
+                    top = top._parent
+                for s_ in m.body[:m.body.index(top)]:
+                    if isinstance(s_, ast.If) and 'self.state' in norm(s_.test) and s_.body and isinstance(s_.body[-1], (ast.Return, ast.Raise)):
+                        early.append(norm(s_.test))
+                R.check(any('self.state' in t for t in g + early), rule, f'{cq}.{name} | {d} @{len([o for o in R.obs if o.rule == rule])}', f'under a test of the channel state ({(g + early)[:1]})',
+                        f'`{d}` in a response handler is not under any test of self.state: a response nobody is waiting for (a stray or replayed one) changes an OPEN channel', p.loc(c))
+    R.check(n >= 10, rule, 'bumble.l2cap | guarded effects', f'{n} state-changing effects in response handlers', f'only {n} effects found')
+
+
 def depth_balance(ctx, rule='C17.depth-balance'):
     """The SDP parser's nesting counter returns to its entry value on every normal exit of the recursive step."""
     R, p = ctx.r, ctx.p
@@ -619,6 +696,8 @@ RULES = [
     ('C17.ack-bounded', ack_bounded),
     ('C17.depth-balance', depth_balance),
     ('C17.feed-contained', feed_contained),
+    ('C17.lost-write', lost_write),
+    ('C17.state-guard', state_guard),
     ('C17.parser-reset', parser_reset),
     ('C17.response-routing', response_routing),
     ('C17.contain', contain),
